@@ -6,6 +6,7 @@
 //
 // Protocol (one op per line; `k`,`j`,`l` are slot numbers 0..7; all numbers decimal ints):
 //   dev S|O                         select the device (Serial / OpenMP); clears all slots
+//   swapdev                         switch to the other device; slots become unset but their objects are reused
 //   new k n v1..vn                  occa::array<int>(dev, n) + copyFrom           -> len n
 //   tile k ts ti | tile1 k ts       setTileSize(ts, ti) / setTileSize(ts)          -> ok
 //   get k                           contents
@@ -79,12 +80,22 @@ static void expectVal(long got, long want, const std::string &what) {
   if (got != want) hp::oracle(what + ": got " + std::to_string(got) + " but the sequential computation gives " + std::to_string(want));
 }
 
+// histories must not see each other: the slot objects are destroyed and constructed again (assignment would
+// keep members that array::operator= does not touch, e.g. the return buffer of another device)
+template <class S>
+static void rebuild(S &s) { s.~S(); new (&s) S(); }
 static void reset() {
-  for (auto &s : slots) { s.set = false; s.a = occa::array<int>(); }
-  for (auto &s : fslots) { s.set = false; s.a = occa::array<float>(); }
-  for (auto &s : dslots) { s.set = false; s.a = occa::array<double>(); }
+  for (auto &s : slots) rebuild(s);
+  for (auto &s : fslots) rebuild(s);
+  for (auto &s : dslots) rebuild(s);
   dev = devSerial;
   isOmp = false;
+}
+static std::string oneLine(const std::string &m, size_t n) {
+  std::string o;
+  for (char c : m) { if (c == '\n' || c == '\r') { if (!o.empty() && o.back() != ' ') o.push_back(' '); } else o.push_back(c); }
+  while (o.find("  ") != std::string::npos) o.erase(o.find("  "), 1);
+  return o.substr(0, n);
 }
 
 // ------------------------------------------------------------------ function menus (int arrays)
@@ -498,7 +509,7 @@ static std::string loopOp(const toks_t &t) {
       else ol.inner(mkIter(inner[0]), mkIter(inner[1]), mkIter(inner[2])).run(OCCA_FUNCTION(sc, [=](const int3 o, const int3 n) -> void { CELL6(o.x, o.y, o.z, n.x, n.y, n.z) }));
     }
   } catch (occa::exception &e) {
-    hp::oracle("forLoop raised an exception: " + std::string(e.message).substr(0, 160));
+    hp::oracle("forLoop raised an exception: " + oneLine(e.message, 160));
     return "err";
   }
 #undef CELL6
@@ -546,6 +557,16 @@ static std::string stepImpl(const toks_t &t) {
     reset();
     isOmp = (t[1] == "O");
     dev = isOmp ? devOpenMP : devSerial;
+    return "ok";
+  }
+  if (op == "swapdev" && t.size() == 1) {
+    // switch the device but KEEP the slot objects (marked unset): the next `new k` assigns an array of the
+    // other device over an object that was used on this one
+    isOmp = !isOmp;
+    dev = isOmp ? devOpenMP : devSerial;
+    for (auto &s : slots) s.set = false;
+    for (auto &s : fslots) s.set = false;
+    for (auto &s : dslots) s.set = false;
     return "ok";
   }
   if (op.rfind("f.", 0) == 0) return floatOp<float>(fslots, t, op.substr(2));
@@ -921,7 +942,7 @@ int main() {
         return stepImpl(t);
       } catch (occa::exception &e) {
         // no operation of the generated histories is an invalid request: an exception breaks the property
-        hp::oracle("occa::exception: " + std::string(e.message).substr(0, 200));
+        hp::oracle("occa::exception: " + oneLine(e.message, 200));
         return "err";
       }
     });
